@@ -39,7 +39,7 @@ TIME_CAP = {"quick": 300, "thorough": 3000}
 
 ADT = ["i8", "f8", "b1"]
 BDT = ["str", "U"]
-CDT = ["D", "us"]
+CDT = ["D", "us", "td"]
 
 
 def fam_frame(f, subset, rows, dts):
@@ -58,6 +58,8 @@ def fam_frame(f, subset, rows, dts):
                     toks.append(None if r == 1 else repr(10.0 * f + r + 0.5))
             elif name == "b":
                 toks.append(None if (r == 1 and kind == "str") else f"f{f}r{r}")
+            elif kind == "td":
+                toks.append(None if r == 1 else str(1 + 3 * f + r))
             else:
                 day = 1 + 3 * f + r
                 base = f"2000-01-{day:02d}"
@@ -134,8 +136,19 @@ def build(specs):
     return [di.DataFrame() if not cols else V.frame(cols) for cols in specs]
 
 
+def promotable(specs):
+    """The statement covers 'any dtypes that NumPy can promote': durations and dates under one name are not."""
+    kinds = {}
+    for s in specs:
+        for name, kind, _ in s:
+            kinds.setdefault(name, set()).add("td" if kind == "td" else "other")
+    return all(len(v) == 1 for v in kinds.values())
+
+
 def check_rbind(case, rec):
     specs = case["frames"]
+    if not promotable(specs):
+        return
     frames = build(specs)
     if case.get("grouped"):
         # frames on which group_by was called earlier are frames too (the mark stays on the object)
